@@ -135,6 +135,15 @@ def base_unit():
 #
 # a multi-shape is the list of its members (`μ`), the argument a single shape `σ`, a multi-shape (list of `σ`) or a
 # coordinate `κ`; the member-level relations `rc rs ri` are parameters about which nothing is assumed.
+#
+# round 2: `bounds` (`shape.bounds` of a member is the parameter `bnd`; `list(zip(*…))` over 4-tuples, `min` / `max` of a
+# sequence raise ValueError when it is empty), `__iter__`, and `split` — the one instance that works on *objects*: it is
+# declared `Heap T` (takes the heap of property dictionaries, returns (heap, result)); a call declared to create an
+# object (`shape.copy()` = the model's `copyMember`, `dict.copy()` = a new dictionary with the same items) threads the
+# heap, a comprehension over such calls is a left-to-right `GV.Py.mapH`, and `for x in xs: x.f = e` replaces every element
+# by the updated record — accepted only over a local list of objects this function created itself (a store through a list
+# whose elements may be shared, e.g. `self.geoshapes`, is outside the subset).  The receiver of `split` is
+# (members, `dt`, address of `_properties`).
 
 def multi_unit():
     src = py2lean.Source(_repo('_base.py'))
@@ -145,21 +154,58 @@ def multi_unit():
         Inst(f'{M}.contains_shape', 'containsMulti', [('self', 'List μ'), ('shape', 'List σ')], 'Bool'),
         Inst(f'{M}.intersects_shape', 'intersectsSingle', [('self', 'List μ'), ('shape', 'σ')], 'Bool'),
         Inst(f'{M}.intersects_shape', 'intersectsMulti', [('self', 'List μ'), ('shape', 'List σ')], 'Bool'),
+        # round 2
+        Inst(f'{M}.bounds', 'bounds', [('self', 'List μ')], 'Except Tuple4 R'),
+        Inst(f'{M}.__iter__', 'iter', [('self', 'List μ')], 'Iter μ'),
+        # `split` creates objects and stores into them: it takes the heap of property dictionaries and returns (heap, shapes);
+        # the receiver is (members, dt, address of `_properties`)
+        Inst(f'{M}.split', 'split', [('self', 'MultiH')], 'Heap List Shp'),
     ]
+    py2lean.LEAN_TYPE['HeapT'] = 'GV.Multi.Heap'
+    py2lean.LEAN_TYPE.setdefault('MultiH', 'List (GV.Multi.Shp γ) × Option GV.TI × Nat')
+    py2lean.LEAN_TYPE.setdefault('Shp', 'GV.Multi.Shp γ')
+    py2lean.LEAN_TYPE.setdefault('DictRef', 'Nat')
+    py2lean.LEAN_TYPE.setdefault('Iter μ', 'List μ')
+
+    class Known(set):
+        """classes an abstract type is known to be an instance of; `.no`: known not to be; any other class is undecided"""
+        def __init__(self, yes, no):
+            super().__init__(yes)
+            self.no = set(no)
 
     def isinstance_hook(typ):
-        return {'List σ': {'MultiShapeBase'}, 'List μ': {'MultiShapeBase'}, 'σ': {'SingleShapeBase'}, 'κ': {'Coordinate'}}.get(typ)
+        single = Known({'SingleShapeBase', 'BaseShape', 'BaseShapeProtocol'}, {'MultiShapeBase', 'Coordinate'})
+        multi = Known({'MultiShapeBase', 'BaseShape', 'BaseShapeProtocol'}, {'SingleShapeBase', 'Coordinate'})
+        return {'List σ': multi, 'List μ': multi, 'MultiH': multi, 'σ': single, 'μ': single,
+                'κ': Known({'Coordinate'}, {'MultiShapeBase', 'SingleShapeBase', 'BaseShape', 'BaseShapeProtocol'})}.get(typ)
 
     abstract = {
         ('μ', 'contains_coordinate', ('κ',)): ('rc {} {}', 'Bool'),
         ('μ', 'contains_shape', ('σ',)): ('rs {} {}', 'Bool'),
         ('μ', 'intersects_shape', ('σ',)): ('ri {} {}', 'Bool'),
+        ('List μ', '__iter__', ()): ('{}', 'Iter μ'),          # an iterator can only be handed on (it is consumed by use)
+        # objects: a member's `.copy()` is the model's `copyMember` (same geometry, copied `dt`, a *new* dictionary holding
+        # a deep copy of the properties); `dict.copy()` allocates a new dictionary with the same items
+        ('Shp', 'copy', ()): ('GV.Multi.copyMember {h} {0}', 'Heap Shp'),
+        ('DictRef', 'copy', ()): ('GV.Multi.Heap.alloc {h} (GV.Multi.Heap.read {h} {0})', 'Heap DictRef'),
     }
-    return Unit('SrcMulti', src, 'GV.Src.Multi', ['GeoVerif.Model.Multi'], insts,
-                {'List μ': M, 'List σ': M}, header='variable {μ σ κ : Type}',
-                attr_types={('List μ', 'geoshapes'): ('{}', 'List μ'), ('List σ', 'geoshapes'): ('{}', 'List σ')},
-                hooks={'isinstance': isinstance_hook},
-                ctx_params=[('rc', 'μ → κ → Bool'), ('rs', 'μ → σ → Bool'), ('ri', 'μ → σ → Bool')], abstract=abstract)
+    def iter_of(tr, args):
+        # `iter(xs)`: an iterator — a value that can only be handed on (looping over it would consume it)
+        if [x.typ for x in args] != ['List μ']:
+            raise Unsupported('iter(' + ', '.join(x.typ for x in args) + ')')
+        return Val(args[0].text, 'Iter μ')
+
+    return Unit('SrcMulti', src, 'GV.Src.Multi', ['GeoVerif.Model.Multi', 'GeoVerif.Model.PyColl'], insts,
+                {'List μ': M, 'List σ': M, 'MultiH': M}, header='variable {μ σ κ γ : Type}',
+                attr_types={('List μ', 'geoshapes'): ('{}', 'List μ'), ('List σ', 'geoshapes'): ('{}', 'List σ'),
+                            ('μ', 'bounds'): ('(bnd {})', 'Tuple4 R'),
+                            ('MultiH', 'geoshapes'): ('{}.1', 'List Shp'), ('MultiH', 'dt'): ('{}.2.1', 'Opt TI'),
+                            ('MultiH', '_properties'): ('{}.2.2', 'DictRef')},
+                intrinsics={'iter': iter_of},
+                hooks={'isinstance': isinstance_hook, 'decorators': {f'{M}.bounds': ['property']}, 'pycoll': True,
+                       'stores': {('Shp', '_properties'): ('props', 'DictRef'), ('Shp', 'dt'): ('dt', 'Opt TI')}},
+                ctx_params=[('rc', 'μ → κ → Bool'), ('rs', 'μ → σ → Bool'), ('ri', 'μ → σ → Bool'),
+                            ('bnd', 'μ → Rat × Rat × Rat × Rat')], abstract=abstract)
 
 
 # ----------------------------------------------------------------------------------------------------------
@@ -357,6 +403,16 @@ def member_unit():
 # the slice bounds are `a b : Option Int` (`val.start`, `val.stop` as instants; `default_to_zulu` pinned as for SrcColl);
 # `x.start` / `x.end` of a member are the model's `startD` / `endD` (a Track holds no time-less shape); `Track(xs)` is
 # the model's `mkTrack`; the local set `_ts` is the list of its elements, newest first.
+#
+# round 2 — the rest of the class: `first` / `last` / `start` / `end` (`xs[0]`, `xs[-1]` with Python's index rule),
+# `time_start_diffs` / `centroid_distances` (`[f(x, y) for x, y in zip(xs, xs[1:])]` -> `List.map`, `np.array` the
+# identity), `copy`, `__eq__` (one instance per class of the other operand; `xs == ys` on member lists is pairwise
+# `x is y or x == y`), `convolve_duplicate_timestamps` (the `defaultdict(list)` is an insertion-ordered association list,
+# `d[k].append(v)` is `GV.Py.ddAppend`; the loop over `.items()` with `continue`; `list(zip(*pairs))`, `sum`, `/` — which
+# raises on a zero divisor —, the dict comprehension and the `GeoPoint(Coordinate(…), _ts, properties=…)` record),
+# `filter_by_time` (`.time()` of an instant is the model's `tod`), `filter_impossible_journeys` (`range`, `len`, lists indexed
+# by the int variables `i`, `j` — every lookup may raise IndexError —, `continue`, `np.isnan` of an exact rational is
+# False).  The haversine distance of two centroids is the parameter `dist` of the two shapes: nothing is assumed of it.
 
 def track_unit():
     src = py2lean.Source(_repo('collections.py'))
@@ -365,8 +421,29 @@ def track_unit():
         Inst(f'{T}.__init__', 'init', [('self', 'None'), ('geoshapes', 'List GV.Coll.Shape')], 'Except GV.Coll'),
         Inst(f'{T}.__getitem__', 'getitem', [('self', 'GV.Coll'), ('val', 'Slice')], 'Except GV.Coll'),
         Inst(f'{T}.has_duplicate_timestamps', 'hasDup', [('self', 'GV.Coll')], 'Bool'),
+        # the rest of the class (round 2): views, pairwise differences, copy, convolution, time-of-day and speed filters
+        Inst(f'{T}.copy', 'copy', [('self', 'GV.Coll')], 'Except GV.Coll'),
+        Inst(f'{T}.first', 'first', [('self', 'GV.Coll')], 'Except GV.Coll.Shape'),
+        Inst(f'{T}.last', 'last', [('self', 'GV.Coll')], 'Except GV.Coll.Shape'),
+        Inst(f'{T}.start', 'startT', [('self', 'GV.Coll')], 'Except Dt'),
+        Inst(f'{T}.end', 'endT', [('self', 'GV.Coll')], 'Except Dt'),
+        Inst(f'{T}.time_start_diffs', 'timeStartDiffs', [('self', 'GV.Coll')], 'Except List Td'),
+        Inst(f'{T}.centroid_distances', 'centroidDistances', [('self', 'GV.Coll')], 'Except List R'),
+        Inst(f'{T}.convolve_duplicate_timestamps', 'convolve', [('self', 'GV.Coll')], 'Except GV.Coll'),
+        Inst(f'{T}.filter_by_time', 'filterByTime', [('self', 'GV.Coll'), ('start_time', 'Int'), ('end_time', 'Int')],
+             'Except GV.Coll', doc='times of day as microseconds since midnight'),
+        Inst(f'{T}.filter_impossible_journeys', 'journeys', [('self', 'GV.Coll'), ('max_speed', 'R')], 'Except GV.Coll'),
+        Inst(f'{T}.__eq__', 'eqTrack', [('self', 'GV.Coll'), ('other', 'TrackA')], 'Bool'),
+        Inst(f'{T}.__eq__', 'eqOther', [('self', 'GV.Coll'), ('other', 'FCA')], 'Bool', doc='an operand that is not a Track'),
     ]
+    py2lean.LEAN_TYPE.setdefault('FCA', 'GV.Coll')
+    py2lean.LEAN_TYPE.setdefault('TrackA', 'GV.Coll')
     py2lean.LEAN_TYPE.setdefault('Slice', 'Unit')
+    py2lean.LEAN_TYPE.setdefault('Str', 'String')
+    py2lean.LEAN_TYPE.setdefault('PVal', 'GV.Coll.PVal')
+    py2lean.LEAN_TYPE.setdefault('Props', 'List (String × GV.Coll.PVal)')
+    py2lean.LEAN_TYPE.setdefault('Cen', 'GV.Coll.Shape')          # a centroid is known by the shape it belongs to
+    py2lean.LEAN_TYPE.setdefault('TrkXY', 'Rat × Rat')
 
     def zulu(tr, args):
         if args[-1].typ != 'Dt':
@@ -381,7 +458,63 @@ def track_unit():
         return v
 
     def local_type(qual, name):
-        return {('Track.has_duplicate_timestamps', '_ts'): 'Set Opt TI'}.get((qual, name))
+        return {('Track.has_duplicate_timestamps', '_ts'): 'Set Opt TI',
+                ('Track.convolve_duplicate_timestamps', '_timestamp_grouping'): 'DDL (Opt TI) GV.Coll.Shape',
+                ('Track.convolve_duplicate_timestamps', 'new_pings'): 'List GV.Coll.Shape'}.get((qual, name))
+
+    def haversine(tr, args):
+        # the distance of two centroids is the parameter `dist` (of the two shapes), about which nothing is assumed
+        if [x.typ for x in args] != ['Cen', 'Cen']:
+            raise Unsupported('haversine_distance_meters(' + ', '.join(x.typ for x in args) + ')')
+        return Val(f'(dist {py2lean._paren(args[0].text)} {py2lean._paren(args[1].text)})', 'R')
+
+    def np_array(tr, args):
+        if len(args) != 1 or not args[0].typ.startswith('List '):
+            raise Unsupported('np.array(' + ', '.join(x.typ for x in args) + ')')
+        return args[0]
+
+    def np_isnan(tr, args):
+        if [x.typ for x in args] not in (['R'], ['Int']):
+            raise Unsupported('np.isnan(' + ', '.join(x.typ for x in args) + ')')
+        return Val('false', 'Bool')                   # an exact rational is a number
+
+    def coordinate(tr, args):
+        # `Coordinate(lon, lat)`: the pair (normalisation is C08's subject; a mean of in-range values is in range)
+        if [x.typ for x in args] != ['R', 'R']:
+            raise Unsupported('Coordinate(' + ', '.join(x.typ for x in args) + ')')
+        return Val(f'({args[0].text}, {args[1].text})', 'TrkXY')
+
+    def geopoint(tr, args):
+        # `GeoPoint(coord, dt, properties=p)`: a new shape (identity / equality class -1 as in the model)
+        props = getattr(tr, 'kw_props', None)
+        tr.kw_props = None
+        if [x.typ for x in args] != ['TrkXY', 'Opt TI'] or props is None or props.typ != 'Props':
+            raise Unsupported('GeoPoint(' + ', '.join(x.typ for x in args) + ', properties=…)')
+        return Val(f'({{ id := -1, eqc := -1, dt := {args[1].text}, props := {props.text}, lon := {args[0].text}.1, '
+                   f'lat := {args[0].text}.2 }} : GV.Coll.Shape)', 'GV.Coll.Shape')
+
+    def keywords(tr, e):
+        name = getattr(e.func, 'id', None)
+        if name == 'sorted':
+            return True
+        if name == 'GeoPoint' and [k.arg for k in e.keywords] == ['properties']:
+            tr.kw_props = tr.expr(e.keywords[0].value)
+            return True
+        return False
+
+    def isinstance_hook(typ):
+        return {'GV.Coll': {'CollectionBase', 'Track'}, 'TrackA': {'CollectionBase', 'Track'},
+                'FCA': {'CollectionBase', 'FeatureCollection'}}.get(typ)
+
+    def eq_hook(tr, x, y):
+        # `xs == ys` on lists of shapes: same length and, pairwise, `x is y or x == y`
+        if x.typ == y.typ == 'List GV.Coll.Shape':
+            return Val(f'(GV.Py.listEq GV.Coll.sameOrEq {x.text} {y.text})', 'Bool')
+        return None
+
+    def expr_stmt(tr, e):
+        import ast as _ast
+        return isinstance(e, _ast.Call) and isinstance(e.func, _ast.Name) and e.func.id == 'warn_once'      # a warning
 
     def sorted_hook(tr, e):
         # `sorted(xs, key=lambda x: x.start)`: Python's sort is stable, so is the model's merge sort by start
@@ -407,15 +540,24 @@ def track_unit():
     attr = {('GV.Coll', 'geoshapes'): ('{}.shapes', 'List GV.Coll.Shape'),
             ('GV.Coll.Shape', 'dt'): ('{}.dt', 'Opt TI'), ('GV.Coll.Shape', 'start'): ('{}.startD', 'Dt'),
             ('GV.Coll.Shape', 'end'): ('{}.endD', 'Dt'),
-            ('Slice', 'start'): ('a', 'Opt Dt'), ('Slice', 'stop'): ('b', 'Opt Dt')}
-    return Unit('SrcTrack', src, 'GV.Src.Track', ['GeoVerif.Model.Track', 'GeoVerif.Model.PyPrelude'], insts,
-                {'GV.Coll': T}, attr_types=attr,
+            ('Slice', 'start'): ('a', 'Opt Dt'), ('Slice', 'stop'): ('b', 'Opt Dt'),
+            ('GV.Coll.Shape', 'centroid'): ('{}', 'Cen'), ('GV.Coll.Shape', '_properties'): ('{}.props', 'Props'),
+            ('TrackA', 'geoshapes'): ('{}.shapes', 'List GV.Coll.Shape'), ('FCA', 'geoshapes'): ('{}.shapes', 'List GV.Coll.Shape')}
+    abstract = {
+        ('Td', 'total_seconds', ()): ('GV.Py.totalSeconds {0}', 'R'),
+        ('Dt', 'time', ()): ('GV.Coll.Track.tod {0}', 'Int'),            # time of day of a UTC instant
+        ('Cen', 'to_float', ()): ('({0}.lon, {0}.lat)', 'Prod R R'),
+        ('Props', 'items', ()): ('{0}', 'List Prod Str PVal'),
+    }
+    return Unit('SrcTrack', src, 'GV.Src.Track', ['GeoVerif.Model.Track', 'GeoVerif.Model.PyPrelude', 'GeoVerif.Model.PyColl'], insts,
+                {'GV.Coll': T}, attr_types=attr, abstract=abstract,
                 pins={k: PINS[k] for k in ('utils/functions.py::default_to_zulu', 'collections.py::CollectionBase.__init__')},
-                intrinsics={'default_to_zulu': zulu, 'Track': track_ctor},
-                hooks={'isinstance': lambda typ: None, 'always_truthy': ('TI', 'Dt'), 'local_type': local_type,
+                intrinsics={'default_to_zulu': zulu, 'Track': track_ctor, 'haversine_distance_meters': haversine,
+                            'np.array': np_array, 'np.isnan': np_isnan, 'Coordinate': coordinate, 'GeoPoint': geopoint},
+                hooks={'isinstance': isinstance_hook, 'always_truthy': ('TI', 'Dt'), 'local_type': local_type,
                        'sorted': sorted_hook, 'super_init': super_init, 'init': init_hook,
-                       'keywords': lambda tr, e: getattr(e.func, 'id', None) == 'sorted'},
-                ctx_params=[('a', 'Option Int'), ('b', 'Option Int')])
+                       'keywords': keywords, 'expr_stmt': expr_stmt, 'eq': eq_hook, 'pycoll': True},
+                ctx_params=[('a', 'Option Int'), ('b', 'Option Int'), ('dist', 'GV.Coll.Shape → GV.Coll.Shape → Rat')])
 
 
 # ----------------------------------------------------------------------------------------------------------
